@@ -356,7 +356,8 @@ def install_vec(I: Interp):
 
     def flatnonzero(I, a, k, n):
         v = a[0]
-        return Vec([Num.const(i) for i, x in enumerate(v.items) if I.truth(x, n, label=f"nonzero[{i}]")])
+        items = v.items if isinstance(v, Vec) else list(v) if isinstance(v, (list, tuple)) else [v]
+        return Vec([Num.const(i) for i, x in enumerate(items) if I.truth(x, n, label=f"nonzero[{i}]")])
     E["numpy.flatnonzero"] = flatnonzero
     E["numpy.nonzero"] = lambda I, a, k, n: (flatnonzero(I, a, k, n),)
     def argext(name):
